@@ -1095,12 +1095,15 @@ struct Snapshot { std::vector<std::vector<uint64_t>> results; std::vector<uint8_
 // Writable static storage of the library objects (.data/.bss between the link-time markers): whatever the callers do, it
 // must read the same afterwards. This also sees writes that no instrumentation callback reports (code built by another
 // compiler, inline assembly, stores made on the library's behalf by an uninstrumented callee).
-struct StaticSnap { std::vector<uint8_t> data, bss; };
+struct StaticSnap { std::vector<uint8_t> data, bss, cdata, cbss; };
 static StaticSnap take_static() {
     StaticSnap s;
     auto d = sim::g_symtab.repo_data(), b = sim::g_symtab.repo_bss();
     if (d.hi > d.lo) s.data.assign((const uint8_t *)d.lo, (const uint8_t *)d.hi);
     if (b.hi > b.lo) s.bss.assign((const uint8_t *)b.lo, (const uint8_t *)b.hi);
+    auto cd = sim::g_symtab.caller_data(), cb = sim::g_symtab.caller_bss();
+    if (cd.hi > cd.lo) s.cdata.assign((const uint8_t *)cd.lo, (const uint8_t *)cd.hi);
+    if (cb.hi > cb.lo) s.cbss.assign((const uint8_t *)cb.lo, (const uint8_t *)cb.hi);
     return s;
 }
 static void check_static(const StaticSnap &before, const char *when) {
@@ -1116,6 +1119,9 @@ static void check_static(const StaticSnap &before, const char *when) {
     };
     cmp(before.data, sim::g_symtab.repo_data().lo, ".data");
     cmp(before.bss, sim::g_symtab.repo_bss().lo, ".bss");
+    // (static storage that the public headers put into the caller's own translation units: static locals of inline functions)
+    cmp(before.cdata, sim::g_symtab.caller_data().lo, ".data of the calling translation units (code from the public headers)");
+    cmp(before.cbss, sim::g_symtab.caller_bss().lo, ".bss of the calling translation units (code from the public headers)");
     W->static_bytes = before.data.size() + before.bss.size();
 }
 
